@@ -735,7 +735,10 @@ def default_is_unit(v, op):
 #   * der / const : `self.d = self.a - self.b` recomputed after the accumulation; states nobody writes
 # Refactorings that must not change the row: module-level helper functions of the class's own module are inlined,
 # `*a, b = helper(...)`, loops over literal tuples / zip(...) of them are unrolled, a condition already decided on the
-# path is not forked again, `getattr/setattr(self, <name>)` with a name known on the path.
+# path is not forked again, `getattr/setattr(self, <name>)` with a name known on the path; a local that holds a state
+# OBJECT (`cs = (self.a, self.b)`; `for c, d in zip(cs, helper(x)): c[i] += d` = the unrolled `self.a[i] += helper(x)[0];
+# self.b[i] += helper(x)[1]`, the helper's tuple length read off its source: `own_field`, `result_arity`); a list
+# comprehension over unrollable items / over `range(n)` = the append loop with a pure element (`comprehension`).
 
 def _is(t, k):
     return isinstance(t, tuple) and len(t) > 0 and t[0] == k
@@ -830,7 +833,58 @@ class XExec(Exec):
                 else:
                     return ("fstr", ast.unparse(e))
             return ("const", repr("".join(parts)))
+        if isinstance(e, (ast.ListComp, ast.GeneratorExp)) and len(e.generators) == 1 and not e.generators[0].ifs \
+                and not e.generators[0].is_async:
+            r = self.comprehension(e, env)
+            if r is not None:
+                return r
         return super().ev(e, env)
+
+    def comprehension(self, e, env):
+        """`[elt for x in <unrollable items>]` -> the list of the elements; `[elt for i in range(n)]` with a symbolic n
+        -> ("listcomp", n, loop, elt for a generic i): the append loop `for i in range(n): r.append(elt)` written as an
+        expression (a private method called in `elt` is inlined as everywhere).  The element must be pure: it leaves
+        every state alone and does not fork."""
+        g = e.generators[0]
+        it = self.ev(g.iter, env)
+        if it[0] == "metrics":
+            return None
+        items = self.loop_items(it)
+        generic = items is None and it[0] == "call" and it[1] == "range" and len(it[2]) == 1 and not it[3] and isinstance(g.target, ast.Name)
+        if items is None and not generic:
+            return None
+        names = [n.id for n in ast.walk(g.target) if isinstance(n, ast.Name)]
+        saved = {n: env.locals.get(n) for n in names}
+        state0, conds0 = dict(env.state), list(env.conds)
+
+        def elt():
+            v = self.ev(e.elt, env)
+            if env.state != state0 or env.conds != conds0:
+                raise Unsupported("comprehension whose element writes a state or forks")
+            return v
+        try:
+            if generic:
+                k = self.nloops
+                self.nloops += 1
+                env.locals[g.target.id] = ("loopvar", k)
+                self.loops.append((k, it[2][0]))
+                try:
+                    res = ("listcomp", it[2][0], k, elt())
+                finally:
+                    self.loops.pop()
+            else:
+                out = []
+                for x in items:
+                    self.assign(g.target, x, env)
+                    out.append(elt())
+                res = ("list",) + tuple(out)
+        finally:
+            for n, v in saved.items():
+                if v is None:
+                    env.locals.pop(n, None)
+                else:
+                    env.locals[n] = v
+        return res
 
     def call(self, e: ast.Call, env: Env):
         f = e.func
@@ -885,6 +939,14 @@ class XExec(Exec):
     def own_field(self, node, env):
         if isinstance(node, ast.Attribute) and isinstance(node.value, ast.Name) and node.value.id == "self":
             return node.attr if node.attr in self.states else None
+        if isinstance(node, ast.Name) and node.id != "self":
+            # a local that holds the OBJECT of a registered state (`c = self.f`, an element of `(self.f, self.g)`
+            # reached by unpacking / a loop over the tuple): writing through it writes the state, as long as the
+            # state has not been touched since the local was bound (same term = same object)
+            t = env.locals.get(node.id)
+            if own_state(t) and t[2] in self.states and env.state.get(t[2]) == t:
+                return t[2]
+            return None
         if isinstance(node, ast.Call) and isinstance(node.func, ast.Name) and node.func.id == "getattr" and len(node.args) == 2 \
                 and isinstance(node.args[0], ast.Name) and node.args[0].id == "self":
             try:
@@ -945,20 +1007,75 @@ class XExec(Exec):
             else:
                 self.assign(t, ("out", val, i - n), env)
 
+    def result_arity(self, term):
+        """term = a call of a module-level function (plain or torch.jit.script'ed) visible from the class's module:
+        the length of the tuple it returns, read off its SOURCE (every `return` is a tuple display of that length;
+        failing that, for a scripted function, the `-> tuple[a, b, c]` annotation), else None."""
+        if not (_is(term, "call") and isinstance(term[1], str)) or "." in term[1]:
+            return None
+        key = ("arity", term[1])
+        if key in self._fn_cache:
+            return self._fn_cache[key]
+        res = None
+        try:
+            import sys
+            v = self.globs.get(term[1])
+            scripted = False
+            if inspect.isfunction(v):
+                mod, fname = v.__module__, v.__name__
+            elif isinstance(getattr(v, "qualified_name", None), str):          # torch.jit.ScriptFunction
+                scripted = True
+                qn = v.qualified_name
+                qn = qn[len("__torch__."):] if qn.startswith("__torch__.") else qn
+                mod, _, fname = qn.rpartition(".")
+            else:
+                mod = fname = None
+            module = sys.modules.get(mod) if mod else None
+            if module is not None and mod.startswith("torcheval"):
+                tree = ast.parse(inspect.getsource(module))
+                defs = [n for n in tree.body if isinstance(n, ast.FunctionDef) and n.name == fname]
+                if len(defs) == 1:
+                    fn = defs[0]
+                    rets, stack = [], list(fn.body)
+                    while stack:
+                        n = stack.pop()
+                        if isinstance(n, (ast.FunctionDef, ast.AsyncFunctionDef, ast.Lambda, ast.ClassDef)):
+                            continue
+                        if isinstance(n, ast.Return):
+                            rets.append(n.value)
+                        stack.extend(ast.iter_child_nodes(n))
+                    lens = {len(r.elts) if isinstance(r, ast.Tuple) and not any(isinstance(x, ast.Starred) for x in r.elts) else None for r in rets}
+                    if len(lens) == 1 and None not in lens:
+                        res = lens.pop()
+                    elif scripted:                       # TorchScript enforces the declared return type
+                        a = fn.returns
+                        if isinstance(a, ast.Subscript) and isinstance(a.value, ast.Name) and a.value.id in ("tuple", "Tuple") \
+                                and isinstance(a.slice, ast.Tuple) and not any(isinstance(x, ast.Constant) and x.value is Ellipsis for x in a.slice.elts):
+                            res = len(a.slice.elts)
+        except (OSError, TypeError, SyntaxError):
+            res = None
+        self._fn_cache[key] = res
+        return res
+
     def loop_items(self, it):
         """the items of a loop that can be unrolled, or None."""
         if it[0] in ("tuple", "list"):
             return list(it[1:])
         if it[0] == "call" and it[1] == "zip" and not it[3] and it[2]:
             cols = it[2]
-            if any(c[0] not in ("tuple", "list", "outs") for c in cols):
+            # a column may also be the (not unpacked) result of a helper whose source returns a tuple of a fixed
+            # length: `zip((self.a, self.b), helper(x))` pairs self.a with helper(x)[0], self.b with helper(x)[1]
+            arity = {c: self.result_arity(c) for c in cols if c[0] == "call"}
+            if any(c[0] not in ("tuple", "list", "outs") and arity.get(c) is None for c in cols):
                 return None
-            known = [len(c) - 1 for c in cols if c[0] in ("tuple", "list")]
+            known = [len(c) - 1 for c in cols if c[0] in ("tuple", "list")] + [a for a in arity.values() if a is not None]
             if not known:
                 return None
 
             def el(c, i):
-                return c[1 + i] if c[0] in ("tuple", "list") else ("out", c[1], c[2] + i)
+                if c[0] in ("tuple", "list"):
+                    return c[1 + i]
+                return ("out", c, i) if c[0] == "call" else ("out", c[1], c[2] + i)
             return [("tuple",) + tuple(el(c, i) for c in cols) for i in range(min(known))]
         if it[0] == "call" and it[1] == "range" and len(it[2]) == 1 and not it[3] and it[2][0][0] == "const":
             try:
